@@ -235,6 +235,11 @@ func (fd *Client) PutItem(ctx context.Context, input *dynamodb.PutItemInput, opt
 	fd.mu.Lock()
 	defer fd.mu.Unlock()
 
+	return fd.putItem(ctx, input)
+}
+
+// putItem is PutItem without taking the client mutex, the caller holds it
+func (fd *Client) putItem(ctx context.Context, input *dynamodb.PutItemInput) (*dynamodb.PutItemOutput, error) {
 	if fd.forceFailureErr != nil {
 		return nil, fd.forceFailureErr
 	}
@@ -261,6 +266,11 @@ func (fd *Client) DeleteItem(ctx context.Context, input *dynamodb.DeleteItemInpu
 	fd.mu.Lock()
 	defer fd.mu.Unlock()
 
+	return fd.deleteItem(ctx, input)
+}
+
+// deleteItem is DeleteItem without taking the client mutex, the caller holds it
+func (fd *Client) deleteItem(ctx context.Context, input *dynamodb.DeleteItemInput) (*dynamodb.DeleteItemOutput, error) {
 	if fd.forceFailureErr != nil {
 		return nil, fd.forceFailureErr
 	}
@@ -329,6 +339,11 @@ func (fd *Client) GetItem(ctx context.Context, input *dynamodb.GetItemInput, opt
 	fd.mu.Lock()
 	defer fd.mu.Unlock()
 
+	return fd.getItem(ctx, input)
+}
+
+// getItem is GetItem without taking the client mutex, the caller holds it
+func (fd *Client) getItem(ctx context.Context, input *dynamodb.GetItemInput) (*dynamodb.GetItemOutput, error) {
 	if fd.forceFailureErr != nil {
 		return nil, fd.forceFailureErr
 	}
@@ -458,6 +473,10 @@ func SetItemCollectionMetrics(client FakeClient, itemCollectionMetrics map[strin
 
 // BatchWriteItem mock response for dynamodb
 func (fd *Client) BatchWriteItem(ctx context.Context, input *dynamodb.BatchWriteItemInput, opts ...func(*dynamodb.Options)) (*dynamodb.BatchWriteItemOutput, error) {
+	// the whole batch runs under the client mutex, its requests use the unlocked operations
+	fd.mu.Lock()
+	defer fd.mu.Unlock()
+
 	if fd.forceFailureErr != nil {
 		return nil, fd.forceFailureErr
 	}
@@ -487,6 +506,9 @@ func (fd *Client) BatchWriteItem(ctx context.Context, input *dynamodb.BatchWrite
 
 // BatchGetItem mock response for dynamodb
 func (fd *Client) BatchGetItem(ctx context.Context, input *dynamodb.BatchGetItemInput, opts ...func(*dynamodb.Options)) (*dynamodb.BatchGetItemOutput, error) {
+	fd.mu.Lock()
+	defer fd.mu.Unlock()
+
 	if fd.forceFailureErr != nil {
 		return nil, fd.forceFailureErr
 	}
@@ -569,7 +591,7 @@ func validateBatchWriteItemInput(input *dynamodb.BatchWriteItemInput) error {
 
 func executeBatchWriteRequest(ctx context.Context, fd *Client, table *string, req types.WriteRequest) error {
 	if req.PutRequest != nil {
-		_, err := fd.PutItem(ctx, &dynamodb.PutItemInput{
+		_, err := fd.putItem(ctx, &dynamodb.PutItemInput{
 			Item:      req.PutRequest.Item,
 			TableName: table,
 		})
@@ -578,7 +600,7 @@ func executeBatchWriteRequest(ctx context.Context, fd *Client, table *string, re
 	}
 
 	if req.DeleteRequest != nil {
-		_, err := fd.DeleteItem(ctx, &dynamodb.DeleteItemInput{
+		_, err := fd.deleteItem(ctx, &dynamodb.DeleteItemInput{
 			Key:       req.DeleteRequest.Key,
 			TableName: table,
 		})
@@ -590,7 +612,7 @@ func executeBatchWriteRequest(ctx context.Context, fd *Client, table *string, re
 }
 
 func executeGetRequest(ctx context.Context, fd *Client, getInput *dynamodb.GetItemInput) (map[string]types.AttributeValue, error) {
-	response, err := fd.GetItem(ctx, getInput)
+	response, err := fd.getItem(ctx, getInput)
 	if err != nil {
 		return nil, err
 	}
